@@ -808,6 +808,123 @@ static void arbitrary(void)
 	}
 }
 
+
+/* recycled state objects: a caller that gives up on a member whose header stops short (every prefix of the header is tried, handed to
+ * isal_read_gzip_header or to isal_inflate in gzip mode) calls isal_inflate_reset() on the SAME state object and parses the next member's
+ * header with fresh buffers. isal_inflate_reset() is documented to prepare the state for a new stream: the second header must be
+ * delivered exactly as with a state fresh from isal_inflate_init() - same return, fields, stop position - in one call and in two. */
+static void recycled_state(void)
+{
+	static const uint8_t ex5[255] = { 9, 8, 7, 6, 5 };
+	static const int exl[] = { -1, 5, 255 };
+	const char *names[] = { NULL, "a", "name-of-twenty-chars" };
+	const char *comments[] = { NULL, "c", "a comment of 23 chars.." };
+	static uint8_t h1[1024], h2[1024];
+	/* the second member's header: all optional fields, or exactly one of them (whatever the first parse left behind is then not overwritten by an earlier field) */
+	static const struct rh_gzip wants[4] = { { 1, 0x55667788u, 2, 3, (const uint8_t *)"\x01\x02\x03\x04\x05\x06\x07", 7, "second.member", "its comment", 1 },
+						 { 0, 0x55667788u, 2, 3, NULL, -1, "second.member", NULL, 0 },
+						 { 1, 0x55667788u, 0, 3, NULL, -1, NULL, "its comment", 1 },
+						 { 0, 0x55667788u, 2, 3, (const uint8_t *)"\x01\x02\x03\x04\x05\x06\x07", 7, NULL, NULL, 0 } };
+	size_t l2 = 0;
+	uint64_t unit = 777000;
+	char key[400];
+	for (int ei = 0; ei < 3; ei++)
+		for (int ni = 0; ni < 3; ni++)
+			for (int ci = 0; ci < 3; ci++)
+				for (int hcrc = 0; hcrc < 2; hcrc++) {
+					if (!v_mine(unit++))
+						continue;
+					if (nfail > 20 || v_deadline_hit())
+						return;
+					struct rh_gzip rh = { 0, 0x01020304u, 4, 0xff, ex5, exl[ei], names[ni], comments[ci], hcrc };
+					size_t l1 = rh_gzip_write(h1, &rh);
+					for (size_t cut = 1; cut < l1; cut++)
+						for (int via = 0; via < 3; via++)      /* 0 header reader, generous buffers; 1 header reader, NULL buffers; 2 isal_inflate in gzip mode */
+							for (int sec = 0; sec < 8; sec++) { /* second header in one call / split after 11 bytes, x 4 field sets */
+								int second = sec & 1;
+								const struct rh_gzip want = wants[sec >> 1];
+								l2 = rh_gzip_write(h2, &want);
+								h2[l2] = 0x03; h2[l2 + 1] = 0x00;
+								const char *wn = want.name ? want.name : "", *wc = want.comment ? want.comment : "";
+								uint32_t wel = want.extra_len > 0 ? want.extra_len : 0;
+								struct inflate_state *st = g_alloc(sizeof *st, (cut + via) & 1 ? G_END : G_START);
+								struct isal_gzip_header hd;
+								uint8_t nb[64], cb[64], eb[300], ob[16];
+								int ret1 = -999, ret2 = -999, bad = 0;
+								size_t stop = 0;
+								snprintf(key, sizeof key, "reader after isal_inflate_reset: first member extra=%d name=%d comment=%d hcrc=%d abandoned after %zu of %zu header bytes via %s; second header (%s) in %s", exl[ei], ni, ci, hcrc,
+									 cut, l1, via == 0 ? "isal_read_gzip_header" : via == 1 ? "isal_read_gzip_header(NULL buffers)" : "isal_inflate(ISAL_GZIP)", sec >> 1 == 0 ? "all fields" : sec >> 1 == 1 ? "name only" : sec >> 1 == 2 ? "comment only" : "extra only", second ? "two calls" : "one call");
+								if (V_TRY()) {
+									memset(st, 0xA5, sizeof *st);
+									isal_inflate_init(st);
+									isal_gzip_header_init(&hd);
+									if (via == 0) {
+										hd.name = (char *)nb; hd.name_buf_len = sizeof nb; hd.comment = (char *)cb; hd.comment_buf_len = sizeof cb; hd.extra = eb; hd.extra_buf_len = sizeof eb;
+									}
+									uint8_t *in = g_alloc(cut, G_END);
+									memcpy(in, h1, cut);
+									st->next_in = in; st->avail_in = cut;
+									if (via == 2) {
+										st->crc_flag = ISAL_GZIP; st->next_out = ob; st->avail_out = sizeof ob;
+										ret1 = isal_inflate(st);
+									} else
+										ret1 = isal_read_gzip_header(st, &hd);
+									isal_inflate_reset(st);
+									isal_gzip_header_init(&hd);
+									memset(nb, 0xCC, sizeof nb); memset(cb, 0xCC, sizeof cb); memset(eb, 0xCC, sizeof eb);
+									hd.name = (char *)nb; hd.name_buf_len = sizeof nb; hd.comment = (char *)cb; hd.comment_buf_len = sizeof cb; hd.extra = eb; hd.extra_buf_len = sizeof eb;
+									size_t k = second ? 11 : l2 + 2;
+									uint8_t *in2 = g_alloc(k, G_END);
+									memcpy(in2, h2, k);
+									st->next_in = in2; st->avail_in = k;
+									ret2 = isal_read_gzip_header(st, &hd);
+									stop = k - st->avail_in;
+									if (second && ret2 == ISAL_END_INPUT && st->avail_in == 0) {
+										size_t k2 = l2 + 2 - k;
+										uint8_t *in3 = g_alloc(k2, G_END);
+										memcpy(in3, h2 + k, k2);
+										st->next_in = in3; st->avail_in = k2;
+										ret2 = isal_read_gzip_header(st, &hd);
+										stop = k + k2 - st->avail_in;
+									}
+									V_END();
+								} else {
+									v_violation(key, "%s", v_fault_desc());
+									nfail++;
+									g_reset();
+									continue;
+								}
+								v_eval();
+								if (via != 2 && ret1 != ISAL_END_INPUT) {
+									v_violation(key, "truncated first header returned %d, expected ISAL_END_INPUT", ret1);
+									bad = 1;
+								} else if (ret2 != ISAL_DECOMP_OK) {
+									v_violation(key, "second header returned %d", ret2);
+									bad = 1;
+								} else if (stop != l2) {
+									v_violation(key, "second header stopped at offset %zu, compressed data starts at %zu", stop, l2);
+									bad = 1;
+								} else if ((want.name && strcmp((char *)nb, wn)) || (want.comment && strcmp((char *)cb, wc)) || hd.extra_len != wel || (wel && memcmp(eb, want.extra, wel)) || eb[wel] != 0xCC ||
+									   nb[want.name ? strlen(wn) + 1 : 0] != 0xCC || cb[want.comment ? strlen(wc) + 1 : 0] != 0xCC) {
+									nb[63] = cb[63] = 0;
+									v_violation(key, "second header fields differ: name '%.40s' comment '%.40s' extra_len %u", (char *)nb, (char *)cb, hd.extra_len);
+									bad = 1;
+								} else if (hd.time != want.mtime || hd.xflags != want.xfl || hd.os != want.os || hd.text != (uint32_t)want.text) {
+									v_violation(key, "second header fixed fields differ");
+									bad = 1;
+								}
+								if (g_check()) {
+									v_violation(key, "%s", g_last_damage());
+									bad = 1;
+								}
+								nfail += bad;
+								g_reset();
+								v_count("recycled_state_headers", 1);
+								v_nontrivial(v_mix(0x4ec7 + unit, cut * 24 + via * 8 + sec));
+							}
+				}
+}
+
 int main(int argc, char **argv)
 {
 	v_init(argc, argv, "C19");
@@ -824,6 +941,7 @@ int main(int argc, char **argv)
 	if (!v_part || !strcmp(v_part, "reader")) {
 		gzip_reader();
 		long_strings();
+		recycled_state();
 		if (v_shard == 0) {
 			zlib_reader();
 			huge_avail_in();
